@@ -239,6 +239,30 @@ PROPS['C29'] = adds_prop('Names stay attached to their entities', ['Orca/Props/C
     'local and global names are re-keyed with the id map, which sends each live id to the new position of the same entity and deleted ids nowhere; emitted maps are sorted. After the repairs F24 and F33 the property holds on the whole input space of the adds family.',
     'Lean 4 proof (names model + re-indexing theorem) + differential correspondence check')
 
+RT_RULE = ('every .wat / .wasm core module under /repo/tests/test_inputs that wasmparser validates (~80) first, then modules composed of 1-6 fragments from a library of 19 feature fragments (MVP control flow / memory / '
+           'tables / globals, multi-value, reference types, bulk memory, SIMD, tail calls, typed function references, GC with rec groups and subtypes, exception handling with exnref and the legacy form, threads, '
+           'multi-memory, memory64, start, names of every kind, custom sections); inputs that do not validate or use extended constant expressions are skipped and counted; distinct by case line; non-trivial always')
+RT_TRUST = COMMON_TRUST + [
+    'translator/gen_valtypes.py and translator/gen_constexpr.py (regular expressions over src/ir/types.rs; fail closed on any arm they do not understand)',
+    'modelled, not verified: everything wasm-encoder\'s RoundtripReencoder does to instructions, tables, elements, tags, memories, imports, exports and data bytes (compared per case on wasmprinter text of input and output); '
+    'validity is wasmparser\'s verdict per case - that it depends only on decoded content is a hypothesis of c01_valid_preserved',
+]
+def rt_prop(title, files, level_text, technique):
+    return {
+        'title': title, 'props_files': files, 'translator': True,
+        'families': [{'name': 'roundtrip', 'quick_n': 1200, 'thorough_n': 60000}],
+        'rule': RT_RULE, 'trusted': RT_TRUST, 'assumptions': ['the input module validates under wasmparser with all features enabled', 'no extended constant expressions (the IR has no representation for them)'],
+        'design_ref': 'DESIGN.md section 6', 'level_text': level_text, 'technique': technique,
+    }
+PROPS['C01'] = rt_prop('Unmodified parse-then-encode yields a valid module', ['Orca/Props/C01.lean'],
+    'PARTIAL (validity itself is not a theorem). Lean 4 theorems over conversion tables regenerated from the source: value-type parsing is total, on the represented profile encoding what was parsed is total and the identity (C02), '
+    'every constant-expression operator of the profile is accepted, the two IR-to-wire routes agree; validity carries over under the stated hypothesis. The roundtrip family validates every fixture and generated module before and after.',
+    'Lean 4 proof by cases over tables regenerated from the source (translator) + differential correspondence check with wasmparser\'s validator as oracle')
+PROPS['C02'] = rt_prop('Unmodified round trip preserves module content', ['Orca/Props/C02.lean'],
+    'Lean 4 theorems: value types of the represented profile, constant-expression operators with their payload bits (v128 for all 16-byte vectors), the type section with its recursion groups (for every hash order), local declarations '
+    'round-trip to themselves (tables regenerated from the source on every run); names and custom sections by C29 / C28. The pass-through payloads are compared per case: printed text, every name map, custom sections in order.',
+    'Lean 4 proof by cases over tables regenerated from the source (translator) + bit-pattern lemmas + differential correspondence check')
+
 SEM_RULE = ("generated terminating programs of the core fragment (0-2 i32 params, 0-2 results, globals, one memory, three callees incl. one with side effects; statements: "
             "log, local/global set, store, drop, block, counted loop, if/else, br, br_if, br_table, return, unreachable; expressions incl. value-producing block / if, loads, "
             "division that may trap, calls; nesting <= 3) x injection plans of 1-6 steps over before / after / semantic_after / block_entry / block_exit / function entry / exit "
